@@ -22,8 +22,8 @@ RULE = ("edit histories over the CircuitDAG API {add, insert_at (on edges the ci
 ASSUMPTIONS = ["networkx MultiDiGraph container and is_directed_acyclic_graph / topological_sort", "group_one_qubit_gates on a circuit "
                "with a Z measurement or without any one-qubit gate raises (judged under C13); such a history ends there and only the "
                "structural invariants are checked after the failed edit"]
-EXHAUSTIVE_SUBSPACES = {"quick": ["all edit histories of length <= 2 over the fixed 34-edit alphabet"],
-                        "thorough": ["all edit histories of length <= 3 over the fixed 34-edit alphabet"]}
+EXHAUSTIVE_SUBSPACES = {"quick": ["all edit histories of length <= 2 over the fixed 35-edit alphabet"],
+                        "thorough": ["all edit histories of length <= 3 over the fixed 35-edit alphabet"]}
 TIMEOUT = {"quick": 900, "thorough": 7200}
 
 # fixed alphabet for the exhaustive part (circuit starts with 1 emitter, 2 photons, 1 classical register)
@@ -37,7 +37,7 @@ ALPHABET = (
      ["insert", "W", [["p", 0]], None, ["P", "H"], [0]],
      ["insert2", "CNOT", [["e", 0], ["p", 0]], None, None, [0, 0]], ["insert2", "CNOT", [["e", 0], ["p", 1]], None, None, [1, 0]],
      ["insert2", "CZ", [["p", 0], ["p", 1]], None, None, [1, 1]], ["insert2", "MR", [["e", 0], ["p", 0]], 0, None, [0, 1]]] +
-    [["remove", 0], ["remove", 1], ["remove", 2], ["replace", 0], ["replace", 1], ["unwrap"], ["group"], ["remove_identity"],
+    [["remove", 0], ["remove", 1], ["remove", 2], ["replace", 0], ["replace", 1], ["replace", 0, 0, "same"], ["unwrap"], ["group"], ["remove_identity"],
      ["addreg", "e"], ["addreg", "p"], ["copy"]])
 
 
@@ -118,6 +118,8 @@ class History:
                     return False
                 op = prog.new_op(k, q, c, gates)
                 op.obj = make_gq_op(op)
+                if len(d) > 6 and d[6]:
+                    op.obj.add_labels(d[6])
                 if kind == "add":
                     circ.add(op.obj)
                     prog.spec_add(op)
@@ -164,8 +166,12 @@ class History:
                     gates = ["Z", "H"] if nk == "W" else None
                 else:
                     nk, gates = alt[op.kind], None
+                if len(d) > 3 and d[3] == "same":
+                    nk, gates = op.kind, op.gates     # same class, different custom labels (e.g. the solvers' "Fixed" tag)
                 prog.spec_replace(op.id, nk, gates)
                 op.obj = make_gq_op(op)
+                if len(d) > 3 and d[3]:
+                    op.obj.add_labels("Fixed")
                 circ.replace_op(node, op.obj)
             elif kind == "unwrap":
                 circ.unwrap_nodes()
@@ -286,11 +292,11 @@ def run_random(rng, lmax, ctx):
             c = int(rng.integers(prog.n_c)) if kind in ("MZ", "cCNOT", "cCZ", "MR") else None
             gates = [ONEQ[int(rng.integers(len(ONEQ)))] for _ in range(int(rng.integers(1, 5)))] if kind == "W" else None
             mode = "add" if rng.random() < 0.5 else ("insert2" if two else "insert")
-            h.apply([mode, kind, q, c, gates, [int(rng.integers(1000)), int(rng.integers(1000))]])
+            h.apply([mode, kind, q, c, gates, [int(rng.integers(1000)), int(rng.integers(1000))], "Fixed" if rng.random() < 0.15 else None])
         elif u < 0.70:
             h.apply(["remove", int(rng.integers(1000))])
         elif u < 0.80:
-            h.apply(["replace", int(rng.integers(1000)), int(rng.integers(1000))])
+            h.apply(["replace", int(rng.integers(1000)), int(rng.integers(1000)), [None, "label", "same"][int(rng.integers(3))]])
         elif u < 0.84:
             h.apply(["unwrap"])
         elif u < 0.88:
